@@ -114,21 +114,33 @@ def econ_spec(cfg):
          ('economics.FlatLicenseEtc', 'real', -1000, 1000), ('economics.AnnualLicenseEtc', 'real', -1000, 1000),
          ('economics.TaxRelief', 'real', 0, 100), ('economics.RINFL', 'real', 0, 1),
          ('economics.PTCInflationAdjusted', 'bool', None, None)]
-    p = c04.products_of(cfg['kind'])[0]
-    s += [(f'economics.{p}StartPrice', 'real', 0, 100), (f'economics.{p}EndPrice', 'real', 0, 100),
-          (f'economics.{p}EscalationRate', 'real', 0, 100), (f'economics.PTC{p}', 'real', 0, 10)]
+    for p in _products(cfg):
+        s += [(f'economics.{p}StartPrice', 'real', 0, 100), (f'economics.{p}EndPrice', 'real', 0, 100),
+              (f'economics.{p}EscalationRate', 'real', 0, 100), (f'economics.PTC{p}', 'real', 0, 10)]
+    for j in range(cfg.get('addon', 0)):
+        s += [(f'addeconomics.AddOnCAPEX[{j}]', 'real', -1000, 1000)]
     return s
 
 
+def _products(cfg):
+    """every product the configuration sells (a cogeneration plant claims a credit for electricity AND for heat in one input)."""
+    return c04.products_of(cfg['kind']) if cfg.get('all_products') else c04.products_of(cfg['kind'])[:1]
+
+
 def econ_fixed(cfg):
-    p = c04.products_of(cfg['kind'])[0]
     f = dict(c04.FIXED)
-    f.update({f'economics.PTC{p}.Provided': True, 'economics.PTCDuration': cfg['d'], f'economics.{p}EscalationStart': cfg['s']})
+    f['economics.PTCDuration'] = cfg['d']
+    for p in _products(cfg):
+        f.update({f'economics.PTC{p}.Provided': True, f'economics.{p}EscalationStart': cfg['s']})
+    for j in range(cfg.get('addon', 0)):
+        for a in c04.ADDON_LISTS:
+            if a != 'AddOnCAPEX':
+                f[f'addeconomics.{a}[{j}]'] = 0.0
     return f
 
 
 def econ_drive(cfg, vals, symbolic):
-    pr = c04.prepared({k: v for k, v in cfg.items() if k not in ('harness', 's', 'd')})
+    pr = c04.prepared({k: v for k, v in cfg.items() if k not in ('harness', 's', 'd', 'all_products')})
     m = pr.reset()
     v = dict(vals)
     v.update(econ_fixed(cfg))
@@ -154,14 +166,21 @@ def econ_obligations(cfg, m, vals, near=False):
     redrill = (e.Cwell.value + e.Cstim.value) * m.wellbores.redrill.value / L if m.wellbores.redrill.value > 0 else 0.0
     out.append(('annual O&M = O&M + redrilling + annual fees - tax relief',
                 eq(e.Coam.value, g('oamtotalfixed') + redrill + g('AnnualLicenseEtc') - g('TaxRelief'))))
-    series = getattr(e, f'{p}Price').value
-    out.append((f'{p} price series has K+L entries', len(series) == K + L))
-    for i in range(K):
-        out.append((f'{p} price in construction year {i} is zero', eq(series[i], 0.0)))
-    for i in range(L):
-        rp = ref_ptc(i, cfg['d'], g(f'PTC{p}'), g('PTCInflationAdjusted'), g('RINFL'))
-        out.append((f'{p} price operating year {i}',
-                    eq(series[K + i], ref_price(i, g(f'{p}StartPrice'), g(f'{p}EndPrice'), cfg['s'], g(f'{p}EscalationRate'), rp))))
+    for p in (_products(cfg) if not near else [p]):
+        series = getattr(e, f'{p}Price').value
+        out.append((f'{p} price series has K+L entries', len(series) == K + L))
+        for i in range(K):
+            out.append((f'{p} price in construction year {i} is zero', eq(series[i], 0.0)))
+        for i in range(L):
+            rp = ref_ptc(i, cfg['d'], g(f'PTC{p}'), g('PTCInflationAdjusted'), g('RINFL'))
+            out.append((f'{p} price operating year {i}',
+                        eq(series[K + i], ref_price(i, g(f'{p}StartPrice'), g(f'{p}EndPrice'), cfg['s'], g(f'{p}EscalationRate'), rp))))
+    if cfg.get('addon'):
+        a = m.addeconomics
+        sC = sum(vals[f'addeconomics.AddOnCAPEX[{j}]'] for j in range(cfg['addon']))
+        cc = core.ite(prov, base - itc + adj, base + adj) if core.is_sym(prov) else ((base - itc + adj) if prov else (base + adj))
+        out.append(('with add-ons: adjusted project CAPEX = (cost - ITC + fees - incentives - grants) + add-on CAPEX: every incentive applied once',
+                    eq(a.AdjustedProjectCAPEX.value, cc + sC)))
     return out
 
 
@@ -311,6 +330,10 @@ def units(tier, seed):
     for (L, K) in ECON_BOUNDS[tier]:
         for kind in ('electricity', 'direct-use', 'chiller'):
             us.append(econ_cfg(L, K, kind))
+    # a cogeneration plant claiming both credits in one input; a run with an add-on (adjusted project CAPEX)
+    for (L, K) in ([(2, 1)] if tier == 'quick' else ECON_BOUNDS[tier]):
+        us.append(dict(econ_cfg(L, K, 'cogen-topping'), all_products=True))
+        us.append(dict(c04.cfg_of('electricity', L, K, False, addon=1), harness='econ'))
     return us
 
 
